@@ -500,7 +500,7 @@ def gen_integral_ir(repo, res):
 
 @rule(
     "GEN-EXPRESSION-IR",
-    ["C04", "C05", "C08", "C20", "C19"],
+    ["C04", "C05", "C08", "C20", "C19", "C12", "C13"],
     "representation._compute_expression_ir interpreted as a whole on a sample (processed, points, original) triple - the original expression has "
     "coefficients [A, B, C] and constants [k0, k1, k2], preprocessing kept [B, C]; one P2 argument; two domains of different dimension; "
     "value shape (2,3) - with cell points, facet points, points of a wrong dimension, two arguments, and a domain-free expression: every "
@@ -617,6 +617,24 @@ def gen_expression_ir(repo, res):
             if not ok:
                 res.fail(key, f"{label}: compute_integral_ir is not handed (cell of the 2D domain, 'expression', {etype!r}, {{'': {{rule(points, unit weights): processed "
                          "expression}}, [6], the caller's options, visualise)", loc, props=("C04",))
+    # points given in single precision: the rule is identified (and its tables are named) by a digest of the raw buffer and the points are printed into the
+    # descriptor - while the module name is computed from their double-precision values: the rule must be built from those too
+    key = f"{g.key}:points-in-single-precision"
+    res.ob(key)
+    from ..npmodel import NPFloat32
+    pts32 = NDArr([[NPFloat32(v) for v in row] for row in pts_cell.tolist()], pts_cell.shape)
+    try:
+        out32, calls32, *_rest = run(pts32, [arg0], [m1, m2])
+        rules32 = [r_ for c_ in calls32 for inner in c_[3].values() for r_ in inner]
+        vals = [v for r_ in rules32 if isinstance(r_, Node) and isinstance(r_.f.get("points"), NDArr) for v in r_.f["points"].flat()]
+        if not vals:
+            res.fail(key, "no quadrature rule with the given points is handed to the per-rule analysis for points given as a float32 array", loc, props=("C04", "C12"))
+        elif any(isinstance(v, NPFloat32) for v in vals):
+            res.fail(key, "points given as a float32 array reach the quadrature rule as float32 scalars: the rule id - a digest of the raw buffer, part of every table name - "
+                     "differs from the one the same points get as a float64 array, although both requests have the same module name (computed from the double-precision "
+                     "values): which text a shared cache holds under that name depends on which request came first", loc, props=("C12", "C13", "C04"))
+    except Raised as e:
+        res.fail(key, f"_compute_expression_ir raises ({e.what}) for points given as a float32 array", loc, props=("C04",))
     key = f"{g.key}:points-of-wrong-dimension-rejected"
     res.ob(key)
     try:
